@@ -245,8 +245,15 @@ func genC12(g *Gen) {
 	for ; ci < no; ci++ {
 		cp := ClientPlan{Addr: clientAddr(ci), Mode: "pipeline", CloseAfterSent: -1, CloseAfterReplies: -1, StartStep: g.R.Intn(30), Hostile: true}
 		cp.Reqs = append(cp.Reqs, ReqPlan{Raw: g.hostileStream(), Class: "hostile", Tok: Tok(ci, 0)})
+		if g.R.Pct(40) {
+			// the offender goes away after its last byte (possibly in the middle of a request it never completes); a newcomer
+			// accepted afterwards gets the same descriptor number and must be served like anybody else
+			cp.CloseAfterSent = len(cp.Reqs[0].Raw)
+			cp.CloseRst = g.R.Pct(50)
+		}
 		p.Clients = append(p.Clients, cp)
 	}
+	offenders := ci
 	nw := g.R.Range(1, 2)
 	for w := 0; w < nw; w++ {
 		cp := ClientPlan{Addr: clientAddr(ci), Mode: "closed", CloseAfterSent: -1, CloseAfterReplies: -1, Witness: true}
@@ -255,6 +262,22 @@ func genC12(g *Gen) {
 			tok := Tok(ci, ri)
 			if g.R.Pct(25) {
 				cp.Reqs = append(cp.Reqs, g.randomSplit(tok, 3, 0))
+			} else {
+				cp.Reqs = append(cp.Reqs, g.randomSingle(tok, -1))
+			}
+		}
+		p.Clients = append(p.Clients, cp)
+		ci++
+	}
+	for oi := 0; oi < offenders; oi++ {
+		if p.Clients[oi].CloseAfterSent < 0 {
+			continue
+		}
+		cp := ClientPlan{Addr: clientAddr(ci), Mode: "closed", CloseAfterSent: -1, CloseAfterReplies: -1, Witness: true, StartAfterClient: oi + 1}
+		for ri, n := 0, g.R.Range(2, 6); ri < n; ri++ {
+			tok := Tok(ci, ri)
+			if g.R.Pct(30) {
+				cp.Reqs = append(cp.Reqs, g.Local(tok, "ping", RPong))
 			} else {
 				cp.Reqs = append(cp.Reqs, g.randomSingle(tok, -1))
 			}
